@@ -78,7 +78,8 @@ categories = Flags.all().to_set()
 
 
 def xdist_running(config):
-    return (
+    # xdist workers have numprocesses == None, but a workerinput attribute
+    return hasattr(config, "workerinput") or (
         hasattr(config.option, "numprocesses")
         and config.option.numprocesses is not None
         and config.option.numprocesses != 0
